@@ -73,6 +73,7 @@ structure WCfg where
   prob : Bool        -- a "probability" label is written (XMLWriter::labels)
   ctrl : Bool        -- the "controllable" attribute is written (XMLWriter::transition)
   bps : Bool         -- branchpoint elements are written and referenced (XMLWriter::taTempl / source / target)
+  sel : Bool := false  -- every select binding is written, each with its declared type (XMLWriter::labels)
   deriving DecidableEq, Repr, Inhabited
 
 def idOf (nr : Nat) : String := "id" ++ toString nr
@@ -97,10 +98,16 @@ def wLocKids (nl : WLoc × Nat) : List Xml :=
 
 def selText (s : WSel) (withType : Bool) : String := s.id ++ " : " ++ (if withType then s.ty else "")
 
+def selectsText : List WSel → String
+  | [] => ""
+  | [s] => selText s true
+  | s :: r => selText s true ++ ", " ++ selectsText r
+
 /-- `XMLWriter::labels`: only `select[0]`, its type only when it carries a typedef label; a probability only if the
     source has that `label("probability", ..)` call -/
 def wEdgeLabels (c : WCfg) (e : WEdge) : List Xml :=
-  (match e.select with
+  (if c.sel then (if e.select.isEmpty then [] else [Xml.elem "label" [("kind", "select")] [.text (.str (selectsText e.select))]])
+   else match e.select with
    | [] => []
    | s :: _ => [Xml.elem "label" [("kind", "select")] [.text (.str (selText s s.named))]]) ++
   wOptLabel "guard" e.guard ++ wOptLabel "synchronisation" e.sync ++ wOptLabel "assignment" e.assign ++
@@ -295,11 +302,6 @@ def optLabel (kind : String) (t : Option LTxt) : List (String × String) :=
   | some s => [(kind, s)]
   | none => []
 
-def selectsText : List WSel → String
-  | [] => ""
-  | [s] => selText s true
-  | s :: r => selText s true ++ ", " ++ selectsText r
-
 def gedgeOf (c : WCfg) (e : WEdge) : GEdge :=
   { src := endId c e.src, tgt := endId c e.dst, ctrl := e.ctrl,
     labels := (if e.select.isEmpty then [] else [("select", selectsText e.select)]) ++ optLabel "guard" e.guard ++
@@ -330,8 +332,8 @@ def selShapes (select : List WSel) : List Shape :=
 
 def edgeShapes (c : WCfg) (e : WEdge) : List Shape :=
   (if !c.prob && (nontrivial e.prob).isSome then [Shape.probabilityDropped] else []) ++
-  (if e.select.length ≥ 2 then [Shape.selectBindingsDropped] else []) ++
-  selShapes e.select ++
+  (if !c.sel && e.select.length ≥ 2 then [Shape.selectBindingsDropped] else []) ++
+  (if c.sel then [] else selShapes e.select) ++
   (if c.ctrl || e.ctrl then [] else [Shape.controllableDropped]) ++
   (if (wEnd c e.src).isSome && (wEnd c e.dst).isSome then [] else [Shape.branchpointEndpoint])
 
